@@ -93,12 +93,29 @@ func runIngester(worker, state string, capacity, fill int) wresult {
 	np := namedpipe.NewNamedPipeIngester(zap.NewNop().Sugar(), health.NewHealth())
 	done := make(chan error, 1)
 	var lateCount func() int
+	drainOne := make(chan struct{}) // each receive takes one item from the worker's downstream channel
+	stopDrain := make(chan struct{})
+	defer close(stopDrain)
 	switch worker {
 	case "audit":
 		ch := make(chan string, capacity)
 		for i := 0; i < fill && i < capacity; i++ {
 			ch <- "prefill"
 		}
+		go func() {
+			for {
+				select {
+				case drainOne <- struct{}{}:
+					select {
+					case <-ch:
+					case <-stopDrain:
+						return
+					}
+				case <-stopDrain:
+					return
+				}
+			}
+		}()
 		alp := auditlog.NewAuditLogIngester(path, ch, np)
 		go func() { done <- alp.Ingest(ctx) }()
 		lateCount = func() int {
@@ -128,6 +145,20 @@ func runIngester(worker, state string, capacity, fill int) wresult {
 		proc := sshd.NewSshdProcessor(ctx, logins, nodeName, machineID, ew, mp)
 		sli := syslog.NewSyslogIngester(path, proc, np)
 		go func() { done <- sli.Ingest(ctx) }()
+		go func() {
+			for {
+				select {
+				case drainOne <- struct{}{}:
+					select {
+					case <-logins:
+					case <-stopDrain:
+						return
+					}
+				case <-stopDrain:
+					return
+				}
+			}
+		}()
 		lateCount = func() int {
 			select {
 			case <-logins:
@@ -191,6 +222,42 @@ func runIngester(worker, state string, capacity, fill int) wresult {
 				}
 			}
 		}()
+	}
+	if state == "afterstall" || state == "afterburst" {
+		// a history before the idle read: records handed over after the consumer had stalled for more than a
+		// second (afterstall) or a burst of records consumed at once (afterburst); then everything is drained,
+		// the pipe goes idle with its writer still attached, and only then the context is cancelled
+		n := 3
+		if state == "afterburst" {
+			n = 400
+		}
+		go func() {
+			for i := 0; i < n; i++ {
+				line := acceptedLine
+				if worker == "audit" {
+					line = auditCmdLine(i + 1)
+				}
+				if _, err := w.Write([]byte(line)); err != nil {
+					return
+				}
+			}
+		}()
+		if state == "afterstall" {
+			time.Sleep(1300 * time.Millisecond)
+		}
+		drained := make(chan struct{})
+		go func() {
+			defer close(drained)
+			for i := 0; i < n; i++ {
+				select {
+				case <-drainOne:
+				case <-time.After(3 * time.Second):
+					return
+				}
+			}
+		}()
+		<-drained
+		time.Sleep(300 * time.Millisecond)
 	}
 	time.Sleep(settleTime)
 	r := await(cancel, done)
